@@ -45,9 +45,73 @@ type capWrite struct {
 }
 
 func capturedWrites(p *Program, fn *ssa.Function, depth int) []capWrite {
+	return capturedWritesFrom(p, fn, fn, depth)
+}
+
+// mutableHelperTypes: types of the standard library and of frozen whose pointer-receiver methods change the
+// receiver (buffers and builders); calling one on a captured variable is a write to that variable.
+var mutableHelperTypes = map[string]bool{
+	"bytes.Buffer": true, "strings.Builder": true, "bufio.Writer": true, "encoding/json.Encoder": true,
+	"text/tabwriter.Writer": true, "encoding/csv.Writer": true,
+	"github.com/arr-ai/frozen.MapBuilder": true, "github.com/arr-ai/frozen.SetBuilder": true,
+}
+
+var readOnlyHelperMethods = map[string]bool{"Len": true, "String": true, "Bytes": true, "Cap": true, "Count": true, "Has": true, "Get": true, "Available": true, "Buffered": true}
+
+// outerCapture: fv (a free variable of a function nested in root) is bound, through the chain of enclosing
+// closures, to something outside root — not to a local of root's own invocation.
+func outerCapture(root *ssa.Function, fv *ssa.FreeVar) bool {
+	var v ssa.Value = fv
+	for i := 0; i < 8; i++ {
+		f, ok := v.(*ssa.FreeVar)
+		if !ok {
+			break
+		}
+		if f.Parent() == root {
+			return true
+		}
+		b := bindingOf(f)
+		if b == nil {
+			return true
+		}
+		v = b
+	}
+	if in, ok := v.(ssa.Instruction); ok && in.Parent() != nil && nestedIn(in.Parent(), root) {
+		return false // a local of this invocation of root (or of a closure inside it)
+	}
+	return true
+}
+
+func capturedWritesFrom(p *Program, root, fn *ssa.Function, depth int) []capWrite {
 	computeEntryLocks(p)
 	var out []capWrite
 	held := heldLocks(fn)
+	add := func(fv *ssa.FreeVar, w capWrite) {
+		if outerCapture(root, fv) {
+			out = append(out, w)
+		}
+	}
+	// the captured variable a receiver expression denotes: &v (the FreeVar itself) or v where v is a captured pointer
+	recvCapture := func(v ssa.Value) *ssa.FreeVar {
+		switch a := v.(type) {
+		case *ssa.FreeVar:
+			return a
+		case *ssa.UnOp:
+			if fv, ok := a.X.(*ssa.FreeVar); ok && a.Op == token.MUL {
+				return fv
+			}
+		case *ssa.FieldAddr:
+			if fv, ok := a.X.(*ssa.FreeVar); ok {
+				return fv
+			}
+			if ld, ok := a.X.(*ssa.UnOp); ok {
+				if fv, ok := ld.X.(*ssa.FreeVar); ok {
+					return fv
+				}
+			}
+		}
+		return nil
+	}
 	ForEachInstr(fn, func(ins ssa.Instruction) {
 		switch x := ins.(type) {
 		case *ssa.Store:
@@ -56,21 +120,21 @@ func capturedWrites(p *Program, fn *ssa.Function, depth int) []capWrite {
 			}
 			switch a := x.Addr.(type) {
 			case *ssa.FreeVar:
-				out = append(out, capWrite{fn, ins, "captured variable " + a.Name()})
+				add(a, capWrite{fn, ins, "captured variable " + a.Name()})
 			case *ssa.Global:
 				out = append(out, capWrite{fn, ins, "package variable " + a.Name()})
 			case *ssa.FieldAddr:
 				if fv, ok := a.X.(*ssa.FreeVar); ok {
-					out = append(out, capWrite{fn, ins, "field of captured variable " + fv.Name()})
+					add(fv, capWrite{fn, ins, "field of captured variable " + fv.Name()})
 				} else if ld, ok := a.X.(*ssa.UnOp); ok {
 					if fv, ok := ld.X.(*ssa.FreeVar); ok {
-						out = append(out, capWrite{fn, ins, "field of captured variable " + fv.Name()})
+						add(fv, capWrite{fn, ins, "field of captured variable " + fv.Name()})
 					}
 				}
 			case *ssa.IndexAddr:
 				if ld, ok := a.X.(*ssa.UnOp); ok {
 					if fv, ok := ld.X.(*ssa.FreeVar); ok {
-						out = append(out, capWrite{fn, ins, "element of captured slice " + fv.Name()})
+						add(fv, capWrite{fn, ins, "element of captured slice " + fv.Name()})
 					}
 				}
 			}
@@ -81,12 +145,25 @@ func capturedWrites(p *Program, fn *ssa.Function, depth int) []capWrite {
 			if ld, ok := x.Map.(*ssa.UnOp); ok {
 				switch a := ld.X.(type) {
 				case *ssa.FreeVar:
-					out = append(out, capWrite{fn, ins, "captured map " + a.Name()})
+					add(a, capWrite{fn, ins, "captured map " + a.Name()})
 				case *ssa.Global:
 					out = append(out, capWrite{fn, ins, "package-level map " + a.Name()})
 				}
 			}
 		case *ssa.Call:
+			// a mutating method of a buffer / builder type called on a captured variable
+			if g := x.Call.StaticCallee(); g != nil && !InRepo(g) && g.Signature.Recv() != nil && len(x.Call.Args) > 0 && len(held[ins]) == 0 {
+				if fv := recvCapture(x.Call.Args[0]); fv != nil {
+					rt := Deref(g.Signature.Recv().Type())
+					name := rt.String()
+					if i := strings.Index(name, "["); i >= 0 {
+						name = name[:i]
+					}
+					if mutableHelperTypes[name] && !readOnlyHelperMethods[g.Name()] {
+						add(fv, capWrite{fn, ins, fmt.Sprintf("captured %s %s (changed by %s)", name, fv.Name(), baseName(g))})
+					}
+				}
+			}
 			// a method called on a captured object: its unprotected field stores count
 			if depth >= 2 || len(x.Call.Args) == 0 {
 				return
@@ -111,7 +188,7 @@ func capturedWrites(p *Program, fn *ssa.Function, depth int) []capWrite {
 		}
 	})
 	for _, a := range fn.AnonFuncs {
-		out = append(out, capturedWrites(p, a, depth+1)...)
+		out = append(out, capturedWritesFrom(p, root, a, depth+1)...)
 	}
 	return out
 }
